@@ -203,6 +203,7 @@ def main(argv):
     cov_items, cov_norms, trusted, not_covered, samples = [], [], [], [], []
     cmds, smt_ms, fn_ms = [], 0.0, {}
     vac = None
+    unit_gens = []
     for uname in cfg['units']:
         u, g, res, out, attempts = verify_unit(uname, repo)
         # a failed labelled ASSERTION that belongs to another property would be assumed by Verus for the rest of that function
@@ -220,6 +221,7 @@ def main(argv):
         smt_ms += out.get('smt_ms', 0)
         for k, v in out.get('times', {}).items():
             fn_ms[k] = round(v, 1)
+        unit_gens.append((uname, g))
         lost_notes = list(g.lost)
         for c in g.cheats_outside_prelude:
             undecided.append('assumption outside the prelude: ' + c)
@@ -357,6 +359,26 @@ def main(argv):
             fns = sorted({t[2] for t in tainted})
             undecided.append('obligations of %s in %s are not proved: the function fails obligation(s) %s tagged for other properties, and no failing input for %s was found%s'
                              % (prop, fns, sorted({ob for t in tainted for (ob, _) in t[3]}), prop, '' if cfg.get('witness') else ' (no witness harness for this property)'))
+    # ---- BOUNDED STAND-IN for isolated functions: a function that could not be brought within the verifier's reach (outside the
+    # subset, or its proof annotations no longer fit) leaves its obligations undecided. If the property has a witness finder, the
+    # bounded search on the REAL crate (built from the tree under test, driven through its public API, compared with the property's
+    # executable oracle) stands in for it: a failing history it finds is a genuine violation, replayable on the real code; finding
+    # none proves nothing (the run stays undecided, exit 2). Labelled bounded, never counted under discharged.
+    iso_fns = sorted({x.split('): ', 1)[-1].split(': ', 1)[0] for x in undecided if x.startswith('isolated function (its obligations are undecided)')})
+    iso_witness = None
+    if iso_fns and not real and not kani_fail and not hard_und and cfg.get('witness'):
+        depth = 5 if cfg.get('witness') == 'alloc' else 4
+        iso_witness = find_witness(cfg['witness'], prop, repo, depth + (1 if tier == 'thorough' else 0), seed)
+        if iso_witness and iso_witness.get('found') and iso_witness.get('property') in (prop, 'panic'):
+            for (uname_, g_) in [(un_, gg_) for (un_, gg_) in unit_gens if any(f_ in gg_.stubbed for f_ in iso_fns)][:1]:
+                fn_ = [f_ for f_ in iso_fns if f_ in g_.stubbed][0]
+                ob_ = '%s::%s::isolated(bounded stand-in)' % (uname_, fn_)
+                obligations[ob_] = dict(props=[prop], fn=fn_, kind='bounded stand-in for a function outside the verifier\'s reach: witness search on the real crate (depth %d)' % depth,
+                                        expr='the property\'s executable oracle holds on every history of the bounded search')
+                g_.obligations.setdefault(ob_, obligations[ob_])
+                diag_ = [dict(rendered='function %s was isolated (%s); the bounded witness search on the real crate found a failing history' % (fn_, '; '.join(x for x in undecided if fn_ in x)[:600]))]
+                real.append((uname_, ob_, diag_, g_))
+            pre_witness = iso_witness
     exit_code = 0
     lines = []
     for (hit, ob) in known_hits:
